@@ -68,7 +68,7 @@ int main(int argc, char** argv) {
     c.recordLevels = wl.flags & (F_BSP | F_BARRIER);
     // a level-synchronous OBIM without the monotonic option also accepts pushes that are more urgent than the level
     // being executed; the level-order oracle (C08) is only defined for non-decreasing pushes, conservation is not
-    if ((wl.flags & F_BARRIER) && !(wl.flags & F_MONOTONE) && focus != "c08" && rng.below(3) == 0) {
+    if ((wl.flags & F_BARRIER) && !(wl.flags & F_MONOTONE) && focus != "c08" && rng.below(2) == 0) {
       c.anyPrioChildren = true;
       c.recordLevels    = false;
     }
